@@ -108,7 +108,13 @@ func (rl *TokenBucketRateLimiter) cleanupRoutine() {
 // cleanup removes buckets that haven't been used for more than 1 hour
 func (rl *TokenBucketRateLimiter) cleanup() {
 	now := time.Now()
-	cutoff := now.Add(-time.Hour)
+	// A bucket may only be dropped once it would be full again anyway;
+	// otherwise the client would get a fresh full burst too early
+	maxAge := time.Hour
+	if full := time.Duration(rl.maxTokens) * rl.refillRate; full > maxAge {
+		maxAge = full
+	}
+	cutoff := now.Add(-maxAge)
 
 	// Use sync.Map's Range method for iteration
 	rl.buckets.Range(func(key, value interface{}) bool {
